@@ -21,6 +21,7 @@ import textwrap
 OUT = os.environ.get("GEN_SOURCE_OUT") or os.path.join(os.path.dirname(os.path.dirname(os.path.abspath(__file__))), "coq", "GeneratedSource.v")
 
 Z, B, L, LL, D, OZ = "Z", "bool", "list Z", "list (list Z)", "pydivs", "option Z"
+SKIP = "<skip>"      # environment entry for an opaque sub-expression: `x = <it>` binds nothing, only attribute chains on x listed in the environment are used
 ELT = {L: Z, LL: L}
 DEFAULT = {Z: "0", L: "[]"}
 
@@ -229,6 +230,8 @@ class Tr:
             return self.ret_of(c, t)
         if isinstance(s, ast.Assign) and len(s.targets) == 1 and isinstance(s.targets[0], ast.Name):
             nm = s.targets[0].id
+            if self.env.get(ast.unparse(s.value), (None, None))[1] == SKIP:
+                return self.block(rest, loc)      # opaque object: only its listed attribute chains are used
             if isinstance(s.value, ast.List) and not s.value.elts:
                 c, t = "[]", L
             else:
@@ -367,8 +370,8 @@ def targets():
         ("src_Partitions_divisions", g(E.Partitions, "_divisions"), [("divs", L), ("sel", L)], {"self.frame.divisions": "divs", "self.partitions": "sel"}, D, None),
         ("src_PartitionsFiltered_divisions", g(E.PartitionsFiltered, "divisions"), [("full", L), ("filtered", B), ("sel", L)],
          {"super().divisions": "full", "self._filtered": "filtered", "self._partitions": "sel"}, D, None),
-        ("src_FusedIO_divisions", g(IO.FusedIO, "_divisions"), [("divs", L), ("buckets", LL)],
-         {"self.operand('_expr')._divisions()": "divs", "self._fusion_buckets": "buckets"}, L, None),
+        ("src_FusedIO_divisions", g(IO.FusedIO, "_divisions"), [("divs", L), ("seldivs", L), ("buckets", LL)],
+         {"self.operand('_expr')": SKIP, "expr._divisions()": "divs", "expr.divisions": "seldivs", "self._fusion_buckets": "buckets"}, D, None),
         ("src_Concat_monotonic_divisions", g(C.Concat, "_monotonic_divisions"), [("dfs", LL), ("known", B)],
          {"self._frames": "dfs", "self._all_known_divisions": "known"}, B, None),
         ("src_Concat_divisions_monotonic", g(C.Concat, "_divisions"), [("dfs", LL)], {"self._frames": "dfs"}, L, "self._monotonic_divisions"),
@@ -385,7 +388,7 @@ def main():
         ptypes = dict(params)
         try:
             fn = _fn_node(obj)
-            tr = Tr({k: (v, ptypes[v]) for k, v in env.items()}, ret, dict(funcs))
+            tr = Tr({k: ((v, ptypes[v]) if v != SKIP else (SKIP, SKIP)) for k, v in env.items()}, ret, dict(funcs))
             loc = {}
             if not env:      # a module-level function: its own parameters are the variables
                 argn = [a.arg for a in fn.args.args]
